@@ -2158,6 +2158,15 @@ theorem refine_single {s : Sys} {i : Bool} {w' : World} {q' : Cq} {a' : Bytes}
     rw [absChunks_same hs]; exact ha
   · rw [Sys.abs_set_other]; exact abs_frame hs _
 
+theorem refine_pair {s : Sys} {i : Bool} {w' : World} {d' o' : Cq} {a' b' : Bytes}
+    (hs : SameFiles s.w w') (ha : d'.abs s.w = a') (hb : o'.abs s.w = b') :
+    ((({ s with w := w' } : Sys).set i d').set (!i) o').abs i = a' ∧
+      ((({ s with w := w' } : Sys).set i d').set (!i) o').abs (!i) = b' := by
+  simp only [Cq.abs] at ha hb
+  cases i
+  · exact ⟨(absChunks_same hs d'.chunks).trans ha, (absChunks_same hs o'.chunks).trans hb⟩
+  · exact ⟨(absChunks_same hs d'.chunks).trans ha, (absChunks_same hs o'.chunks).trans hb⟩
+
 theorem step_refines (s : Sys) (op : Op) (h : Inv s) (hop : OpOK s op) (hns : op.spills = false) :
     ((step s op).1.abs op.qi, (step s op).1.abs (!op.qi)) =
         specStep (fun fid => (s.w.files fid).content) (s.abs op.qi) (s.abs (!op.qi)) op (step s op).2 ∧
@@ -2219,24 +2228,23 @@ theorem step_refines (s : Sys) (op : Op) (h : Inv s) (hop : OpOK s op) (hns : op
   | steal qi n =>
     obtain ⟨a, b⟩ := steal_spec s.w (s.get qi) (s.get (!qi)) n
     obtain ⟨_, _, c, d⟩ := b (h.get qi) (h.get (!qi))
-    refine ⟨?_, trivial⟩
-    simp only [Cq.abs] at c d
-    cases qi <;> exact Prod.ext (by simpa [Sys.abs, Cq.abs, step, Sys.get, Sys.set, absChunks_same a] using c)
-      (by simpa [Sys.abs, Cq.abs, step, Sys.get, Sys.set, absChunks_same a] using d)
+    obtain ⟨x, y⟩ := refine_pair (i := qi) a c d
+    exact ⟨Prod.ext x y, trivial⟩
   | stealWithTempfiles qi n => cases hns
   | appendCqRange qi self off len =>
-    simp only [step]
-    split
-    · split
+    cases self
+    · simp only [step, Bool.false_eq_true, ↓reduceIte]
+      obtain ⟨a, b⟩ := rangeLoop_spec s.w (s.get qi) (s.get (!qi)).chunks off len
+      have c := (b (h.get qi) (h.get (!qi)).valid).2
+      obtain ⟨x, y⟩ := refine_single (i := qi) (q' := (appendCqRange s.w (s.get qi) (s.get (!qi)) off len).2) a c
+      exact ⟨Prod.ext x y, trivial⟩
+    · simp only [step, ↓reduceIte]
+      split
       · exact ⟨rfl, trivial⟩
       · obtain ⟨a, b⟩ := rangeLoop_spec s.w (s.get qi) (s.get qi).chunks off len
         have c := (b (h.get qi) (h.get qi).valid).2
         obtain ⟨x, y⟩ := refine_single (i := qi) (q' := (appendCqRangeSelf s.w (s.get qi) off len).2) a c
         exact ⟨Prod.ext x y, trivial⟩
-    · obtain ⟨a, b⟩ := rangeLoop_spec s.w (s.get qi) (s.get (!qi)).chunks off len
-      have c := (b (h.get qi) (h.get (!qi)).valid).2
-      obtain ⟨x, y⟩ := refine_single (i := qi) (q' := (appendCqRange s.w (s.get qi) (s.get (!qi)) off len).2) a c
-      exact ⟨Prod.ext x y, trivial⟩
   | markWritten qi n =>
     simp only [step]
     split
@@ -2290,10 +2298,10 @@ theorem step_refines (s : Sys) (op : Op) (h : Inv s) (hop : OpOK s op) (hns : op
     · simp only [resOK, hr]
       exact d rfl
   | readData qi n =>
-    obtain ⟨a, b⟩ := readData_spec (w := s.w) (q := s.get qi) (n := n) rfl
+    rcases hrd : readData s.w (s.get qi) n with ⟨w', q', r⟩
+    obtain ⟨a, b⟩ := readData_spec hrd
     obtain ⟨_, c, d⟩ := b (h.get qi)
-    simp only [step]
-    generalize hr : (readData s.w (s.get qi) n).2.2 = r at c d
+    simp only [step, hrd]
     cases r with
     | none =>
       obtain ⟨x, y⟩ := refine_single (i := qi) a (d rfl)
